@@ -533,6 +533,14 @@ func TestC12(t *testing.T) {
 				}
 				c.Logger = d.Intn("logger", 2) == 0
 				c.Reset = d.Intn("reset", 3) == 0
+				if d.Intn("target-above-24-bits", 16) == 7 {
+					// a target that is no 24-bit address can never be reached: the run must go on to its budget and return false
+					c.Target |= uint32(1+d.Intn("target-top-byte", 255)) << 24
+					if c.Max > 4000 {
+						c.Max = 4000
+					}
+					ev.Class("B/target-with-bits-above-24")
+				}
 				if d.Intn("warm", 4) == 0 {
 					c.Warm = true
 					ev.Class("B/one-instruction-run-first-then-callback-map-changed-in-place")
